@@ -19,7 +19,7 @@ import PygProofs.Lemmas.TableAbsHeap
 import PygProofs.Lemmas.TableCall
 
 namespace Pyg.Props.C01
-open Pyg Table
+open Pyg Table Abs
 
 /-! ### the history invariant -/
 
@@ -1200,19 +1200,19 @@ theorem abs_step (s : Heap) (op : Op) (hs : HeapRect s) :
 /-- **simulation, any history**: the heap after any operation list is, through `abs`, the heap of the
 list-of-records machine after the same list, and the two machines produce the same outcomes line by line -/
 theorem abs_run (ops : List Op) (s : Heap) (hs : HeapRect s) :
-    (run s ops).map abs = specRun (s.map abs) ops ∧ trace s ops = specTrace (s.map abs) ops := by
+    (run s ops).map abs = specRun (s.map abs) ops ∧ stepTrace s ops = specTrace (s.map abs) ops := by
   induction ops generalizing s with
   | nil => exact ⟨rfl, rfl⟩
   | cons op ops ih =>
     obtain ⟨h1, h2⟩ := abs_step s op hs
     obtain ⟨i1, i2⟩ := ih _ (rect_step s op hs)
-    simp only [run, specRun, trace, specTrace]
+    simp only [run, specRun, stepTrace, specTrace]
     rw [← h1, ← h2]
     exact ⟨i1, by rw [i2]⟩
 
 /-- from the empty heap there is no hypothesis left -/
 theorem abs_run_empty (ops : List Op) :
-    (run [] ops).map abs = specRun [] ops ∧ trace [] ops = specTrace [] ops :=
+    (run [] ops).map abs = specRun [] ops ∧ stepTrace [] ops = specTrace [] ops :=
   abs_run ops [] HeapRect.nil
 
 /-! ### derived columns with several callables, `update`, tuple projection -/
@@ -1402,6 +1402,61 @@ theorem spec_reachable_aligned (ops : List Op) :
   obtain ⟨i, _, rfl⟩ := hrow
   simp [row, abs, cols]
 
+/-! ### closed forms on the reference machine -/
+
+/-- on the reference machine: rows + header (every row as long as the header) are exactly those records -/
+theorem spec_new_rows (cs : List String) (rs : List (List Cell)) (hcs : cs.Nodup) (hk : cs ≠ [])
+    (hrs : ∀ r ∈ rs, r.length = cs.length) :
+    Recs.construct (.rows rs) (some cs) [] = some (.ok ⟨cs, rs⟩) := by
+  obtain ⟨h1, _, h3, h4⟩ := new_rows cs rs hcs hk hrs
+  rw [← abs_construct, h1]
+  simp [Except.map, abs, h3, h4]
+
+/-- on the reference machine: a non-empty list of records (dicts) is read as one record each over the keys
+in order of first appearance, a missing key as `None`, a repeated key by its last value; records without
+any key at all are no records -/
+theorem spec_new_records (rs : List (List (String × Cell))) (hne : rs ≠ []) :
+    Recs.construct (.recs rs) Option.none [] =
+      some (.ok (Recs.norm ⟨dedupKeys (rs.flatMap fun r => r.map (·.1)),
+        rs.map fun r => (dedupKeys (rs.flatMap fun r => r.map (·.1))).map fun k =>
+          ((r.reverse.find? (·.1 == k)).map (·.2)).getD .none⟩)) := by
+  obtain ⟨h1, _, h3, h4⟩ := new_records rs hne
+  rw [← abs_construct, h1]
+  simp only [Option.map_some, Except.map]
+  congr 2
+  unfold Recs.norm
+  by_cases hk : (dictConcat rs).cols = []
+  · have hnil : dictConcat rs = [] := by
+      cases hd : dictConcat rs with
+      | nil => rfl
+      | cons c t => rw [hd] at hk; simp [cols] at hk
+    rw [← h3, hk]
+    simp only [List.isEmpty_nil, if_true]
+    rw [hnil]; rfl
+  · have h4' := h4 hk
+    rw [h3] at h4' hk
+    have : (dedupKeys (rs.flatMap fun r => r.map (·.1))).isEmpty = false := by
+      cases hd : dedupKeys (rs.flatMap fun r => r.map (·.1)) with
+      | nil => exact absurd hd hk
+      | cons a as => rfl
+    simp only [this, Bool.false_eq_true, if_false]
+    simp only [abs, h3, h4']
+
+/-- a mask with one flag per record is the plain filter -/
+theorem spec_mask_full (r : Recs) (m : List Bool) (hm : m.length = r.rows.length) :
+    r.getMask m = .ok (r.mask m) := by
+  unfold Recs.getMask zipper2 Recs.mask
+  have hl : lens [r.rows.length, m.length] = .ok r.rows.length := by
+    apply lens_const (by simp)
+    intro l hl
+    simp at hl
+    rcases hl with rfl | rfl
+    · rfl
+    · exact hm
+  rw [hl]
+  simp only
+  rw [bcast_self rfl, bcast_self hm]
+
 /-! ### non-vacuity: the hypotheses are satisfiable on non-trivial values -/
 
 /-- a 3-row, 2-column table; the history below builds it, masks it to nothing, assigns, concatenates -/
@@ -1441,7 +1496,7 @@ example : specRun [] [.new 0 .none Option.none [("a", .many [.int 1, .int 2]), (
 /-- outcomes of both machines on a history with a rejected assignment, a bad row index and a missing key -/
 example : specTrace [abs tbl] [.setitem 0 "c" (.many [.int 1]), .setitem 0 "c" (.many [.int 1, .int 2]),
       .row 0 3, .col 0 "z", .len 0] = [.unit, .err .value, .err .index, .err .key, .val (natVal 3)] ∧
-    trace [tbl] [.setitem 0 "c" (.many [.int 1]), .setitem 0 "c" (.many [.int 1, .int 2]),
+    stepTrace [tbl] [.setitem 0 "c" (.many [.int 1]), .setitem 0 "c" (.many [.int 1, .int 2]),
       .row 0 3, .col 0 "z", .len 0] = [.unit, .err .value, .err .index, .err .key, .val (natVal 3)] :=
   ⟨rfl, rfl⟩
 /-- two callables, the first reads the key the second defines: `b` is evaluated first, then `c = new b` -/
